@@ -211,6 +211,7 @@ func linsimMain(c *Ctx) {
 			}
 		}
 		c.Res.Runs++
+		c.RunHash(out.trace, out.pickHash, histDigest(out.hist))
 		c.Res.Evaluations++ // one history checked
 		c.Res.SimSeconds += out.simTime.Seconds()
 		c.Count("sched-steps", out.steps)
